@@ -207,7 +207,17 @@ func (vm *VM) FindElement(name *IDName) (Element, error) {
 		return elem, nil
 	}
 	// then look for local values
-	elem := vm.getCurrentScope().GetValue(nameStr)
+	scope := vm.getCurrentScope()
+	elem := scope.GetValue(nameStr)
+	if elem == nil || scope.GetSymbolDepth(nameStr) == 0 {
+		// not a local value: look for the methods & classes defined in current module
+		// before the imported names (depth = 0) - their symbols are popped when the
+		// module's program ends, but an imported method still runs in its own module
+		// and may refer to them
+		if exportElem, ok := vm.findCurrentModuleExportValue(nameStr); ok {
+			return exportElem, nil
+		}
+	}
 	if elem == nil {
 		return nil, zerr.NameNotDefined(nameStr)
 	}
@@ -221,7 +231,14 @@ func (vm *VM) FindElementWithModule(name *IDName) (Element, *Module, error) {
 		return elem, NativeCodeModule, nil
 	}
 	// then look for local values
-	elem, moduleID := vm.getCurrentScope().GetValueWithModuleID(nameStr)
+	scope := vm.getCurrentScope()
+	elem, moduleID := scope.GetValueWithModuleID(nameStr)
+	if elem == nil || scope.GetSymbolDepth(nameStr) == 0 {
+		// look for the methods & classes defined in current module (see FindElement)
+		if exportElem, ok := vm.findCurrentModuleExportValue(nameStr); ok {
+			return exportElem, vm.GetCurrentModule(), nil
+		}
+	}
 	if elem == nil {
 		return nil, nil, zerr.NameNotDefined(nameStr)
 	}
@@ -282,6 +299,15 @@ func (vm *VM) SetElement(name *IDName, elem Element) error {
 }
 
 // // internal functions
+func (vm *VM) findCurrentModuleExportValue(name string) (Element, bool) {
+	if module := vm.GetCurrentModule(); module != nil {
+		if elem, err := module.GetExportValue(name); err == nil {
+			return elem, true
+		}
+	}
+	return nil, false
+}
+
 func (vm *VM) getCurrentCallFrame() *CallFrame {
 	return vm.callStack[vm.csCount-1]
 }
